@@ -43,6 +43,16 @@ def make_block(rng, idx):
             cons.append(seq)
     if cons and rng.random() < 0.4:
         cons.insert(rng.randrange(len(cons) + 1), list(rng.choice(cons)))   # duplicate '#S' line
+    if rng.random() < 0.5:
+        # distinct '#S' lines that traverse the SAME set of edges (once vs twice round a cycle, different start) are distinct constraints
+        try:
+            cyc = nx.find_cycle(G)
+            cn = [u for u, _ in cyc] + [cyc[0][0]]
+            once = cn; twice = cn + cn[1:]; rot = cn[1:] + cn[1:2] if len(cn) > 2 else None
+            for c in rng.sample([x for x in (once, twice, rot) if x and len(x) >= 2], rng.randint(2, 3) if rot else 2):
+                cons.insert(rng.randrange(len(cons) + 1), list(c))
+        except Exception:
+            pass
     nh = rng.randint(1, 3)
     headers = [f"graph number = {idx} name = g{rng.randint(0, 999)}"] + [f"extra comment {j}" for j in range(nh - 1)]
     return {"headers": headers, "cons": cons, "n": len(set(x for e in edges for x in e)), "edges": toks, "zero": False}
